@@ -12,6 +12,8 @@
    - the inherent member.to_json_string() writes the member the way it appears
      inside the store;
    - calls made one after the other on one thread return what each returns alone;
+   - the serialisation mode is a property of one logical call: no other call - of another reader,
+     on another thread, or run by the same pool worker while this call waits - is affected by it;
    - iterating, searching, querying and the parallel adaptors serialise nothing
      (their own result is compared with the solo result directly by the harness). *)
 From Coq Require Import List Arith Bool.
